@@ -143,6 +143,21 @@ def from_json_shared(j):
         _SHARE = None
 
 
+_NUMPY = False     # from_json_numpy: numeric constants as numpy scalars
+
+
+def from_json_numpy(j):
+    """Like from_json, but every int / float / bool constant is the numpy scalar of the same value
+    (numpy.int64 / numpy.float64 / numpy.bool_): the representation of a number is an input
+    dimension of its own (coefficients read out of arrays are numpy scalars)."""
+    global _NUMPY
+    _NUMPY = True
+    try:
+        return from_json(j)
+    finally:
+        _NUMPY = False
+
+
 def _from_json_raw(j):
     import pymbolic.primitives as p
     from immutabledict import immutabledict
@@ -150,7 +165,16 @@ def _from_json_raw(j):
     if t == "Var":
         return p.Variable(j["name"])
     if t == "Const":
-        return json_to_val(j["v"])
+        v = json_to_val(j["v"])
+        if _NUMPY:
+            import numpy as np
+            if type(v) is bool:
+                return np.bool_(v)
+            if type(v) is int and abs(v) < 2**62:
+                return np.int64(v)
+            if type(v) is float:
+                return np.float64(v)
+        return v
     if t == "None":
         return None
     if t in _NARY:
